@@ -154,6 +154,7 @@ def regen_consts(mod, binary):
             lines.append("def %s : String := %s" % (lean_ident(k), v))
     lines.append("end Hy.Gen")
     text = "\n".join(lines) + "\n"
+    os.makedirs(os.path.join(LEAN, "Hy", "Gen"), exist_ok=True)
     path = os.path.join(LEAN, "Hy", "Gen", mod.capitalize() + ".lean")
     old = open(path).read() if os.path.exists(path) else None
     if old != text:
@@ -163,6 +164,7 @@ def regen_consts(mod, binary):
 
 
 def write_gen_file(name, text):
+    os.makedirs(os.path.join(LEAN, "Hy", "Gen"), exist_ok=True)
     path = os.path.join(LEAN, "Hy", "Gen", name + ".lean")
     old = open(path).read() if os.path.exists(path) else None
     if old != text:
